@@ -46,6 +46,27 @@ pub mod slab {
         #[verifier::external_body] pub fn vacant_key(&self) -> (r: usize) ensures !self@.dom().contains(r), r == self.next_key(), { unimplemented!() }
     }
 }
+pub mod futures_core {
+    use vstd::prelude::*;
+    use std::task::{Context, Poll};
+    /// stand-in (rule D5) for `futures_core::Stream`: only the associated type; polling goes through `poll_next_unpin`
+    pub trait Stream { type Item; }
+    /// the stream has yielded `v` (Ready(Some(v)))
+    pub uninterp spec fn w_yielded<S: Stream>(v: S::Item) -> bool;
+    /// the stream has reported its end (Ready(None))
+    pub uninterp spec fn w_stream_end<S: Stream>() -> bool;
+    /// the stream has said Pending (its waker is registered)
+    pub uninterp spec fn w_stream_pending<S: Stream>() -> bool;
+    /// ASSUMED: `Pin::new(s).poll_next(cx)` of an Unpin stream; nothing but the witness of what it returned
+    #[verifier::external_body]
+    pub fn poll_next_unpin<S: Stream + Unpin>(s: &mut S, cx: &mut Context<'_>) -> (r: Poll<Option<S::Item>>)
+        ensures match r {
+            Poll::Ready(Some(v)) => w_yielded::<S>(v),
+            Poll::Ready(None) => w_stream_end::<S>(),
+            Poll::Pending => w_stream_pending::<S>(),
+        },
+    { unimplemented!() }
+}
 pub mod async_task {
     use vstd::prelude::*;
     #[verifier::external_body] #[verifier::reject_recursive_types(M)] #[derive(Debug)]
